@@ -26,6 +26,17 @@ mod c12;
 mod c12_more;
 mod c13;
 mod c13_more;
+mod e4;
+mod c14;
+mod c14_more;
+
+#[global_allocator]
+static GLOBAL: e4::Guard = e4::Guard;
+
+/// First coupon count at which a CPC sketch of this lg_k has the given flavor ordinal.
+pub fn c06_counts(lg_k: u8, flavor: u8) -> u32 {
+    (1..=cpcm::max_coupons(lg_k)).find(|&c| cpcm::flavor_of(lg_k, c) == flavor).unwrap() + (1u32 << lg_k) / 4
+}
 mod replay;
 
 use common::{Ctx, Tier};
@@ -79,6 +90,8 @@ fn main() {
         "C11" => c11::run(&Ctx::new("C11", tier).reduced().with_filter(|k| k.contains("roundtrip") || k.contains("wrapper") || k.starts_with("panic|"))),
         "C12" => c12::run(&Ctx::new("C12", tier).reduced().with_filter(|k| k.contains(".image.") || k.contains(".size.") || k.starts_with("panic|"))),
         "C13" => c13::run(&Ctx::new("C13", tier)),
+        "worker" => e4::worker_main(&c14::run_entry),
+        "C14" => c14::run(&Ctx::new("C14", tier)),
         "C06" => c06::run(&Ctx::new("C06", tier).with_filter(|k| !k.contains("cpc.bounds"))),
         "C05" => c05::run(&Ctx::new("C05", tier).with_filter(|k| !k.starts_with("cpc.bounds"))),
         "C04" => c04::run(&Ctx::new("C04", tier).with_filter(|k| !k.starts_with("theta.bounds"))),
